@@ -404,8 +404,19 @@ func c5SaveRestore(p *Prog, r *Report, fn *ssa.Function) {
 			argsOK := isVarKey(call.Call.Args[1]) && call.Call.Args[2] == elem
 			// guard flag
 			flagOK := false
+			foreign := false
 			for _, g := range guardsAt(st.Block()) {
 				g = flattenGuard(g)
+				// a flag computed for a different request part must not decide this part's substitution
+				if fex, ok := g.Cond.(*ssa.Extract); ok && fex.Index == 1 {
+					if fc, ok := fex.Tuple.(*ssa.Call); ok && fc.Call.StaticCallee() != nil && fc.Call.StaticCallee().Name() == "cloneSub" {
+						if ld, ok := fc.Call.Args[0].(*ssa.UnOp); ok && ld.Op == token.MUL {
+							if _, ipart := fieldAddrName(ld.X); ipart != part {
+								foreign = true
+							}
+						}
+					}
+				}
 				if fex, ok := g.Cond.(*ssa.Extract); ok && g.Pol && fex.Index == 1 {
 					if fc, ok := fex.Tuple.(*ssa.Call); ok && fc.Call.StaticCallee() != nil && fc.Call.StaticCallee().Name() == "cloneSub" {
 						if ld, ok := fc.Call.Args[0].(*ssa.UnOp); ok && ld.Op == token.MUL {
@@ -418,8 +429,8 @@ func c5SaveRestore(p *Prog, r *Report, fn *ssa.Function) {
 					}
 				}
 			}
-			r.Check(srcOK && argsOK && flagOK && instrDominates(st, recCall) == false || (srcOK && argsOK && flagOK), rule, q+":part:"+part, p.pos(st.Pos()), "request part "+part+" is re-substituted from the snapshot's "+part+" under its own changed flag",
-				"request part "+part+" must be substituted from the snapshot's same part, with the current variable and value, under the flag computed for that part (source-ok="+boolStr(srcOK, "y", "n")+" args-ok="+boolStr(argsOK, "y", "n")+" flag-ok="+boolStr(flagOK, "y", "n")+")")
+			r.Check(srcOK && argsOK && flagOK && !foreign, rule, q+":part:"+part, p.pos(st.Pos()), "request part "+part+" is re-substituted from the snapshot's "+part+" under its own changed flag",
+				"request part "+part+" must be substituted from the snapshot's same part, with the current variable and value, under the flag computed for that part (source-ok="+boolStr(srcOK, "y", "n")+" args-ok="+boolStr(argsOK, "y", "n")+" flag-ok="+boolStr(flagOK, "y", "n")+" guarded-by-another-part's-flag="+boolStr(foreign, "y", "n")+")")
 		}
 	}
 	r.Check(parts == 4, rule, q+":parts", p.pos(recCall.Pos()), "all four request parts are substituted", "expected the substitution of principal, action, resource and context in the value loop; found "+itoa(parts))
@@ -770,6 +781,56 @@ func c5Cache(p *Prog, r *Report) {
 	}
 	if n == 0 {
 		r.Anchor(rule, "stores to batchEvaler.policies")
+	}
+	// batchCompile: every evaluator installed is compiled, in this call, from the policy it is stored with
+	if fn := p.fn(pBatch, "batchCompile"); fn != nil {
+		n := 0
+		forEachInstr(fn, func(in ssa.Instruction) {
+			mu, ok := in.(*ssa.MapUpdate)
+			if !ok {
+				return
+			}
+			n++
+			loop := innermostLoop(loopsOf(fn), mu.Block())
+			var pol ssa.Value
+			if loop != nil {
+				for _, hin := range loop.Header.Instrs {
+					if nx, ok := hin.(*ssa.Next); ok {
+						pol = extractOf(nx, 2)
+					}
+				}
+			}
+			good := false
+			if a, ok := mu.Value.(*ssa.Alloc); ok && pol != nil {
+				var polOK, evOK bool
+				for _, ref := range *a.Referrers() {
+					fa, ok := ref.(*ssa.FieldAddr)
+					if !ok {
+						continue
+					}
+					_, fname := fieldAddrName(fa)
+					for _, rr := range *fa.Referrers() {
+						st, ok := rr.(*ssa.Store)
+						if !ok {
+							continue
+						}
+						switch fname {
+						case "Policy":
+							polOK = st.Val == pol
+						case "Evaler":
+							if c, ok := st.Val.(*ssa.Call); ok && isCallTo(c, pEval, "Compile") && c.Call.Args[0] == pol {
+								evOK = true
+							}
+						}
+					}
+				}
+				good = polOK && evOK
+			}
+			r.Check(good, rule, "batch.batchCompile:fresh-evaluators", p.pos(mu.Pos()), "each evaluator is compiled here from the current residual policy", "an evaluator installed by batchCompile is not eval.Compile(p) of the policy being iterated (e.g. taken from a cache keyed by id): residual policies differ between substitutions, so a reused evaluator decides with another substitution's residual")
+		})
+		if n == 0 {
+			r.Undec(rule, "batch.batchCompile:fresh-evaluators", p.pos(fn.Pos()), "no evaluator installation found")
+		}
 	}
 	// batchCompile sets compiled=true only after building all evaluators
 	if fn := p.fn(pBatch, "batchCompile"); fn != nil {
